@@ -642,6 +642,7 @@ func (nfs *Nfs) NFSPROC3_RENAME(args nfstypes.RENAME3args) nfstypes.RENAME3res {
 	var inodes []*inode.Inode
 	var frominum common.Inum
 	var toinum common.Inum
+	var moved *inode.Inode // the source, when the rename holds its lock
 	var success bool = false
 	var done bool = false
 
@@ -757,10 +758,36 @@ func (nfs *Nfs) NFSPROC3_RENAME(args nfstypes.RENAME3args) nfstypes.RENAME3res {
 					break
 				}
 				nfs.doDecLink(op, to)
+				moved = from
 				success = true
 			} else { // retry
 				op.Abort()
 			}
+		} else if dipto != dipfrom {
+			// The source moves to another directory; if it is a directory
+			// its ".." must follow it, so it has to be locked as well
+			// (in order, with the two directories).
+			op.Abort()
+			op = fstxn.Begin(nfs.fsstate)
+			inums := make([]common.Inum, 3)
+			inums[0] = dipfrom.Inum
+			inums[1] = dipto.Inum
+			inums[2] = frominum
+			inodes = lockInodes(op, inums)
+			if inodes == nil { // one of them is gone; look again
+				continue
+			}
+			dipfrom = inodes[0]
+			dipto = inodes[1]
+			f, _ := dir.LookupName(dipfrom, op, args.From.Name)
+			t, _ := dir.LookupName(dipto, op, args.To.Name)
+			if dipfrom.Gen != fromh.Gen || dipto.Gen != toh.Gen ||
+				f != frominum || t != common.NULLINUM {
+				op.Abort() // things changed meanwhile; look again
+				continue
+			}
+			moved = inodes[2]
+			success = true
 		} else {
 			success = true
 		}
@@ -777,6 +804,13 @@ func (nfs *Nfs) NFSPROC3_RENAME(args nfstypes.RENAME3args) nfstypes.RENAME3res {
 	if !ok1 {
 		errRet(op, &reply.Status, nfstypes.NFS3ERR_IO)
 		return reply
+	}
+	if dipto != dipfrom && moved != nil && moved.Kind == nfstypes.NF3DIR {
+		// a directory that moves gets its new parent as ".."
+		if !dir.RemName(moved, op, "..") || !dir.AddName(moved, op, dipto.Inum, "..") {
+			errRet(op, &reply.Status, nfstypes.NFS3ERR_IO)
+			return reply
+		}
 	}
 	commitReply(op, &reply.Status)
 	return reply
